@@ -28,6 +28,8 @@ def exact_float_site(ex, st, cx, node, n, what):
 def builtin_fn(ex, st, nm, e, cx, k):
     args = e.args
     kws = {kw.arg: kw.value for kw in e.keywords}
+    if nm == 'sum' and len(args) == 1 and isinstance(args[0], ast.GeneratorExp):
+        return sum_genexp(ex, st, e, cx, k)
     if nm == 'len':
         def f(st, v):
             t = v.ty
@@ -188,6 +190,11 @@ def builtin_fn(ex, st, nm, e, cx, k):
             if v.ty.kind == 'list':
                 s2, r = ex.new_list(st, v.ty, ex.list_len(st, v), ex.list_arr(st, v))
                 return k(s2, r)
+            if v.ty.kind == 'str':
+                # list(s): the characters of s, one string of length 1 each
+                j_ = z3.Int('j!chars')
+                s2, r = ex.new_list(st, T.lst(STR), z3.Length(v.z), z3.Lambda([j_], z3.SubString(v.z, j_, 1)), 'chars')
+                return k(s2, r)
             raise VCError(f'list({v.ty!r}) outside subset')
         return ex.ev(st, args[0], cx, f)
     if nm == 'print':
@@ -225,6 +232,41 @@ def builtin_fn(ex, st, nm, e, cx, k):
         # exception object construction (arguments are messages)
         return k(st, SV(OPAQUE, I(0)))
     raise VCError(f'unknown function {nm}: {ast.unparse(e)}')
+
+
+def sum_genexp(ex, st, e, cx, k):
+    """sum(<elt> for <v> in <iterable>) is the left fold of + from 0 (Python's definition): executed as the loop
+           _sumN = 0
+           for <v> in <iterable>: _sumN = _sumN + <elt>
+    whose invariant the sidecar contract gives under the loop ordinal 'sumN' (N-th such call of the function in source
+    order).  The generator's target stays bound afterwards (it does not in Python; nothing in the subset reads it)."""
+    from .stmts import exec_block, loop_spec
+    g = e.args[0]
+    if len(g.generators) != 1 or g.generators[0].ifs or g.generators[0].is_async:
+        raise VCError(f'sum() of a filtered / nested generator outside subset: {ast.unparse(e)}')
+    gen = g.generators[0]
+    fi = cx.fi
+    sums = [n for n in ast.walk(fi.node) if isinstance(n, ast.Call) and isinstance(n.func, ast.Name) and n.func.id == 'sum'
+            and len(n.args) == 1 and isinstance(n.args[0], ast.GeneratorExp)]
+    sums.sort(key=lambda n: (n.lineno, n.col_offset))
+    o = 'sum%d' % [id(n) for n in sums].index(id(e))
+    acc = '_' + o
+    init = ast.Assign(targets=[ast.Name(id=acc, ctx=ast.Store())], value=ast.Constant(value=0))
+    step = ast.Assign(targets=[ast.Name(id=acc, ctx=ast.Store())],
+                      value=ast.BinOp(left=ast.Name(id=acc, ctx=ast.Load()), op=ast.Add(), right=g.elt))
+    loop = ast.For(target=gen.target, iter=gen.iter, body=[step], orelse=[])
+    for n in (init, step, loop):
+        ast.copy_location(n, e)
+        ast.fix_missing_locations(n)
+    loop_spec(ex, cx, loop)                      # makes sure the ordinal table of this function exists
+    ex._loop_ords[id(fi.node)][id(loop)] = o
+    out = []
+    for kind, s2, p in exec_block(ex, st, [init, loop], cx):
+        if kind == 'normal':
+            out += k(s2, s2.vars[acc])
+        else:
+            out.append((kind, s2, p))
+    return out
 
 
 def module_fn(ex, st, mod, attr, e, cx, k):
@@ -386,6 +428,7 @@ def builtin_method(ex, st, obj, mname, args, kwargs, cx, node, k):
         if mname == 'group':
             gi = ex.coerce(args[0], INT).z if args else I(0)
             has = ex.uf('match_has_group', z3.IntSort(), z3.IntSort(), z3.BoolSort())(obj.z, gi)
+            has = z3.Or(gi == 0, has)          # group 0 (the whole match) is always present
             txt = ex.uf('match_group', z3.IntSort(), z3.IntSort(), z3.StringSort())(obj.z, gi)
             dt = T.sort_of(T.opt(STR))
             return k(st, SV(T.opt(STR), z3.If(has, dt.some(txt), dt.none)))
@@ -479,6 +522,16 @@ def builtin_method(ex, st, obj, mname, args, kwargs, cx, node, k):
         if mname in ('strip', 'lower', 'upper', 'rstrip', 'lstrip'):
             f_ = ex.uf('str_' + mname, z3.StringSort(), z3.StringSort())
             return k(st, SV(STR, f_(obj.z)))
+        if mname == 'split' and len(args) >= 1 and args[0].ty.kind == 'str':
+            # s.split(sep[, maxsplit]) with an explicit separator: a fresh list of at least one piece; the pieces are
+            # an (uninterpreted, deterministic) function of the arguments
+            mx = ex.coerce(args[1], INT).z if len(args) > 1 else I(-1)
+            n_ = ex.uf('split_len', z3.StringSort(), z3.StringSort(), z3.IntSort(), z3.IntSort())(obj.z, args[0].z, mx)
+            it_ = ex.uf('split_item', z3.StringSort(), z3.StringSort(), z3.IntSort(), z3.IntSort(), z3.StringSort())
+            j_ = z3.Int('j!split')
+            st2 = st.assume(n_ >= 1, z3.Implies(mx >= 0, n_ <= mx + 1))
+            s2, r = ex.new_list(st2, T.lst(STR), n_, z3.Lambda([j_], it_(obj.z, args[0].z, mx, j_)), 'split')
+            return k(s2, r)
         if mname == 'isspace':
             f_ = ex.uf('str_isspace', z3.StringSort(), z3.BoolSort())
             return k(st, SV(BOOL, f_(obj.z)))
